@@ -21,7 +21,7 @@ def run(tier):
     # the engine part runs next to the two other parts (they share nothing)
     from concurrent.futures import ThreadPoolExecutor
     pool = ThreadPoolExecutor(max_workers=1)
-    fut = pool.submit(engine.run_engine, tier)
+    fut = pool.submit(engine.run_engine, tier, 0, True)
     # down files / Reversible flag through the formatters (observations of the C07 corpus, formulas DownStatementsDiffer / ReversibleFlag)
     b = vf.build_harness("core", "roundtrip")
     r = vf.tlc("LexerContents", "LexerContents.cfg", defines={"NQ": 1}, keep=True, timeout=600)
